@@ -23,7 +23,7 @@ var backendPkgs = []string{ir.MastPath, ir.FilePath, ir.S3Path}
 
 func init() {
 	Register(&Rule{
-		ID: "ATOMICFILE", Props: []string{"C17"}, Min: 2,
+		ID: "ATOMICFILE", Props: []string{"C17", "C11"}, Min: 2,
 		Doc: "file store: Store of every mast.Persist implementation in persist/file never creates or truncates the final path " +
 			"filepath.Join(base, name) by name; every success return outside the already-exists shortcut is preceded on every feasible path, in order, by " +
 			"CreateTemp in the final path's directory (pattern with a character outside the node-name alphabet), Write of the bytes parameter, " +
@@ -124,6 +124,15 @@ func errPropFunc(c *Ctx, fn *ssa.Function) {
 				if fn.Parent() != nil {
 					c.Undecided(fn, P.InstrPos(x), "error of "+name, "call inside a closure: its error does not flow to the method result directly")
 					continue
+				}
+				// closing a file that was opened read-only cannot lose data
+				if staticID(x) == "(*os.File).Close" && len(x.Call.Args) == 1 {
+					if ex, isEx := ir.Strip(ir.ResolveCell(x.Call.Args[0])).(*ssa.Extract); isEx && ex.Index == 0 {
+						if oc, isCall := ex.Tuple.(*ssa.Call); isCall && staticID(oc) == "os.Open" {
+							c.OK(P.InstrPos(x), "error of "+name+" in "+ir.FuncName(fn), "the file was opened read-only by os.Open: its Close cannot lose written data", true)
+							continue
+						}
+					}
 				}
 				res := errDropCheck(fn, x)
 				switch {
@@ -657,7 +666,7 @@ func init() {
 		Run: runCTORVERBATIM,
 	})
 	Register(&Rule{
-		ID: "PREFIXIDENT", Props: []string{"C03"}, Min: 3,
+		ID: "PREFIXIDENT", Props: []string{"C03", "C11"}, Min: 3,
 		Doc: "NodeURLPrefix is an injective function of the store's identity: it is assembled from the full location fields (or the receiver's " +
 			"address) by concatenation/fmt verbs without precision only; no Base/last-element/trim/slice/case-folding step lies between the " +
 			"location and the prefix (two distinct stores sharing a NodeCache must never share a prefix, or a flush to one is skipped).",
